@@ -45,7 +45,7 @@ Proof. eexists. split; [vm_compute; reflexivity | reflexivity]. Qed.
    Marshalers, json.Number, NaN/Inf, and that the HTML / UTF-8 post passes of encodeFinish act literal by literal. *)
 Theorem C03_marshal_agree_partial_jit : forall e co t v fuel res prog,
   frag t -> has_type (fok prims_jit) t v -> compile e co t false = COk prog ->
-  std_marshal e Qraw fuel (Some (t, v)) = SOk res -> (need v <= 4095)%nat ->
+  std_marshal e Qraw fuel (Some (t, v)) = SOk res -> (need v <= 4096)%nat ->
   agree (encode prims_jit e co std_flags (Some (t, v))) res.
 Proof. exact marshal_agree_jit. Qed.
 Print Assumptions C03_marshal_agree_partial_jit.
